@@ -6,6 +6,7 @@ import (
 	"go/constant"
 	"go/token"
 	"go/types"
+	"regexp/syntax"
 	"sort"
 	"strings"
 
@@ -26,6 +27,9 @@ func checkC19(c *Ctx) {
 	c.Rule("C19/R6", "sibling recognisers: the new and the legacy 'key: value' line recognisers apply the same predicates (lower-case start, no space/upper in key, ':' after position 0, blank/tab separated value)")
 	c.Rule("C19/R7", "results are immutable: in the legacy reader every write to the current label map happens after the map was replaced by a copy in the same call; labels added by the server (permanent labels) are never set or removed by file content")
 
+	c.Rule("C19/R12", "label sets are coalesced only when equal: in Labels.Equal a differing value and (where presence is tested) an absent key both lead to 'return false'")
+	c.Rule("C19/R10", "the query splitter undoes addToQuery's quoting: in parseQueryString the test for a backslash alone decides that the next byte is skipped")
+	c.Rule("C19/R11", "numbers are read back whole from upload IDs: no regular expression literal in storage/db has a capture group under a repetition operator")
 	c.Rule("C19/R8", "newest first and filter before limit in the upload listing: every LIMIT of the listing query applies to rows ordered by (Day, Seq) descending as numbers; wherever the listing query is cut with LIMIT n over a per-upload record count that can be zero (the correlated COUNT(*) of the empty-query path), the text before the LIMIT already contains the rCount > 0 condition, so empty or aborted uploads do not use up the n newest slots")
 	c.Rule("C19/R9", "the labels the server adds belong to one file (same rule as the per-file clause of C20/R6): the label map handed on with each uploaded part is made per part, or every key set in the loop is set on every path")
 	p := mustLoad(c, loadOpts{}, "./storage/db", "./storage/query", "./storage/benchfmt", "./storage/app", "./storage", "./analysis/app", "./benchfmt")
@@ -37,6 +41,9 @@ func checkC19(c *Ctx) {
 	c19Siblings(c, p)
 	c19Immutable(c, p)
 	c19Limit(c, p)
+	c19Escapes(c, p)
+	c19LabelsEqual(c, p)
+	c19RepeatedCaptures(c, p, "C19/R11")
 	c20FreshMetaAll(c, p, "C19/R9")
 }
 
@@ -1117,4 +1124,148 @@ func c19Limit(c *Ctx, p *Prog) {
 	})
 	c.Floor(R, "LIMIT clauses in the upload listing", n, 2)
 	c.Floor(R, "LIMIT clauses over counts that can be zero", nZero, 1)
+}
+
+// c19Escapes (C19/R10): the front end's query splitter undoes the quoting its own addToQuery applies: in
+// parseQueryString a backslash skips the byte after it whatever that byte is — the test `c == '\\'` alone decides the
+// extra step (its true edge goes straight to the step, with no further condition on the next byte or on the length).
+func c19Escapes(c *Ctx, p *Prog) {
+	const R = "C19/R10"
+	fn := p.Fn("analysis/app", "parseQueryString")
+	if fn == nil {
+		c.Undecided(R, "anchor:parseQueryString", "", "not found")
+		return
+	}
+	n := 0
+	for _, b := range fn.Blocks {
+		ifi, ok := b.Instrs[len(b.Instrs)-1].(*ssa.If)
+		if !ok {
+			continue
+		}
+		bo, ok := ifi.Cond.(*ssa.BinOp)
+		if !ok || (bo.Op != token.EQL && bo.Op != token.NEQ) {
+			continue
+		}
+		k, isK := constInt(bo.Y)
+		if !isK || k != '\\' {
+			continue
+		}
+		n++
+		skip := b.Succs[0]
+		if bo.Op == token.NEQ {
+			skip = b.Succs[1]
+		}
+		_, furtherTest := skip.Instrs[len(skip.Instrs)-1].(*ssa.If)
+		c.Check(!furtherTest, R, fmt.Sprintf("parseQueryString:backslash#%d", n), p.pos(bo.Pos()), "a backslash skips the next byte unconditionally",
+			"after a backslash the next byte is skipped only under a further condition (what the byte is, how much text is left): the quoting applied by addToQuery doubles backslashes, so a value ending in a backslash arrives as \\\\\" — skipping only before a quote reads the second backslash as escaping the closing quote, the splitter stays in quoting mode, and '|' and 'vs' leak into the storage query")
+	}
+	c.Floor(R, "backslash tests in the query splitter", n, 2)
+}
+
+// c19RepeatedCaptures (C19/R11): an upload's day and sequence number are read back from its ID with a regular
+// expression; a capture group under a repetition operator — (\d)+ — keeps only its last iteration, so the number read
+// is the last digit. No regular expression literal in storage/db has a capture directly under *, + or {n,m}.
+func c19RepeatedCaptures(c *Ctx, p *Prog, R string) {
+	n := 0
+	for _, fn := range p.Funcs("storage/db") {
+		eachInstr(fn, func(_ *ssa.BasicBlock, in ssa.Instruction) {
+			call, ok := in.(*ssa.Call)
+			if !ok {
+				return
+			}
+			co := calleeObj(&call.Call)
+			if co == nil || co.Pkg() == nil || co.Pkg().Path() != "regexp" || !(co.Name() == "MustCompile" || co.Name() == "Compile" || co.Name() == "MatchString") {
+				return
+			}
+			pat, ok := constString(call.Call.Args[0])
+			if !ok {
+				return
+			}
+			n++
+			key := fmt.Sprintf("%s:regexp %q", fnName(fn), pat)
+			re, err := syntax.Parse(pat, syntax.Perl)
+			if err != nil {
+				c.Bad(R, key, p.pos(call.Pos()), "the regular expression does not parse: "+err.Error())
+				return
+			}
+			bad := false
+			var walk func(r *syntax.Regexp, underRepeat bool)
+			walk = func(r *syntax.Regexp, underRepeat bool) {
+				if r.Op == syntax.OpCapture && underRepeat {
+					bad = true
+				}
+				rep := r.Op == syntax.OpStar || r.Op == syntax.OpPlus || r.Op == syntax.OpRepeat
+				for _, s := range r.Sub {
+					// only a capture that is the repeated thing itself (possibly inside a concatenation) is affected
+					walk(s, rep || (underRepeat && r.Op != syntax.OpCapture))
+				}
+			}
+			walk(re, false)
+			c.Check(!bad, R, key, p.pos(call.Pos()), "no capture group is repeated", "a capture group of this expression sits under a repetition operator, so it holds only the last repetition: an upload sequence number read back through it is its last digit, uploads recreated by ID with sequence numbers of 10 and more are then listed out of newest-first order and a limit keeps the wrong ones")
+		})
+	}
+	c.Floor(R, "regular expressions in storage/db", n, 1)
+}
+
+// c19LabelsEqual (C19/R12): records are coalesced under one label set only when the label sets are equal. In
+// Labels.Equal every comparison of a looked-up value decides "unequal" when it differs, and where a lookup also reports
+// presence, absence decides "unequal" too: the not-present edge leads to `return false`, never on to the next key.
+func c19LabelsEqual(c *Ctx, p *Prog) {
+	const R = "C19/R12"
+	fn := p.Method("storage/benchfmt", "Labels", "Equal")
+	if fn == nil {
+		c.Undecided(R, "anchor:Labels.Equal", "", "not found")
+		return
+	}
+	site := p.pos(fn.Pos())
+	returnsFalse := func(b *ssa.BasicBlock) bool {
+		for i := 0; i < 4; i++ {
+			if ret, ok := b.Instrs[len(b.Instrs)-1].(*ssa.Return); ok && len(ret.Results) == 1 {
+				k, ok := retVal(ret, 0).(*ssa.Const)
+				return ok && k.Value != nil && !constant.BoolVal(k.Value)
+			}
+			if _, ok := b.Instrs[len(b.Instrs)-1].(*ssa.Jump); ok && len(b.Instrs) == 1 {
+				b = b.Succs[0]
+				continue
+			}
+			return false
+		}
+		return false
+	}
+	n := 0
+	for _, b := range fn.Blocks {
+		ifi, ok := b.Instrs[len(b.Instrs)-1].(*ssa.If)
+		if !ok {
+			continue
+		}
+		switch x := ifi.Cond.(type) {
+		case *ssa.Extract:
+			// presence of a key
+			if lk, ok := x.Tuple.(*ssa.Lookup); ok && lk.CommaOk && x.Index == 1 {
+				n++
+				c.Check(returnsFalse(b.Succs[1]), R, fmt.Sprintf("Equal:absent-key#%d", n), site, "a key absent from the other set makes the sets unequal",
+					"where a key of one label set is absent from the other, Equal goes on to the next key instead of answering false: two sets of the same size with different keys compare equal, so consecutive results whose labels changed are stored as one record and a query on the new key misses the later ones")
+			}
+		case *ssa.BinOp:
+			isLookup := func(v ssa.Value) bool {
+				if _, ok := v.(*ssa.Lookup); ok {
+					return true
+				}
+				if ex, ok := v.(*ssa.Extract); ok {
+					_, isL := ex.Tuple.(*ssa.Lookup)
+					return isL
+				}
+				return false
+			}
+			if (x.Op == token.NEQ || x.Op == token.EQL) && (isLookup(x.X) || isLookup(x.Y)) && isString(x.X.Type()) {
+				n++
+				differ := b.Succs[0]
+				if x.Op == token.EQL {
+					differ = b.Succs[1]
+				}
+				c.Check(returnsFalse(differ), R, fmt.Sprintf("Equal:different-value#%d", n), site, "a differing value makes the sets unequal", "where the two values of a key differ, Equal does not answer false")
+			}
+		}
+	}
+	c.Floor(R, "decisions in Labels.Equal", n, 1)
 }
